@@ -3,13 +3,15 @@
 # Applies /verif/seeded/<name>/patch.diff in a scratch worktree of /repo HEAD (under /var/tmp),
 # runs one check against it (VERIF_REPO), prints a one-line verdict, removes the worktree.
 N=$1; P=$2; T=${3:-quick}
-WT=/var/tmp/sr_${N}_$P
+V=$(dirname "$(dirname "$(realpath "$0")")")
+WT=/var/tmp/sr_$(basename $V)$(echo $V | cksum | cut -c1-4)_${N}_$P
 rm -rf $WT
 flock /var/tmp/seedrun.lock sh -c "git -C /repo worktree prune; git -C /repo worktree add -q --detach $WT HEAD" || exit 2
-( cd $WT && git apply ${SEEDPATCH:-/verif/seeded/$N/patch.diff} ) || { echo "seed=$N PATCH-FAILED"; git -C /repo worktree remove --force $WT; exit 2; }
-cd /verif
+( cd $WT && git apply ${SEEDPATCH:-$V/seeded/$N/patch.diff} ) || { echo "seed=$N PATCH-FAILED"; git -C /repo worktree remove --force $WT; exit 2; }
+cd $V
 START=$(date +%s)
-OUT=/var/tmp/sr_out_${N}_$P.txt
+TAG=$( [ "$V" = /verif ] && echo '' || echo "$(echo $V | cksum | cut -c1-4)_" )
+OUT=/var/tmp/sr_out_${TAG}${N}_$P.txt
 VERIF_REPO=$WT ./check $P --tier $T > $OUT 2>&1
 rc=$?
 END=$(date +%s)
@@ -18,7 +20,7 @@ nf=$(grep -c 'no-failing-input-found' $OUT)
 echo "seed=$N check=$P rc=$rc violations=$nv no_input=$nf secs=$((END-START))"
 [ $rc -ge 2 ] && tail -5 $OUT
 flock /var/tmp/seedrun.lock git -C /repo worktree remove --force $WT
-B=/verif/build/scratch_$(python3 -c "import hashlib;print(hashlib.sha1('$WT'.encode()).hexdigest()[:8])")
-[ -d "$B/replays" ] && mkdir -p /var/tmp/sr_replays/${N}_$P && cp -r $B/replays/. /var/tmp/sr_replays/${N}_$P/ 2>/dev/null
+B=$V/build/scratch_$(python3 -c "import hashlib;print(hashlib.sha1('$WT'.encode()).hexdigest()[:8])")
+[ -d "$B/replays" ] && mkdir -p /var/tmp/sr_replays/${TAG}${N}_$P && cp -r $B/replays/. /var/tmp/sr_replays/${TAG}${N}_$P/ 2>/dev/null
 rm -rf $B
 exit 0
